@@ -71,6 +71,7 @@ void mv_obs(const char * fmt, ...) __attribute__((format(printf,1,2)));
 void mv_cover(int bit);
 void mv_point(const volatile void * addr, size_t sz);      /* scheduling point before a harness-level shared access */
 void mv_wait_until_changed(const volatile void * addr, size_t sz); /* wait loop helper: yields, marks waiting */
+void mv_quiesce(void);           /* run the other workers until none of them can make progress */
 int  mv_controlled(void);
 int  mv_worker(void);            /* current worker index */
 long mv_now_ns(void);            /* virtual clock, ns since virtual epoch */
@@ -79,6 +80,9 @@ long mv_steps(void);
 /* ledger */
 long mv_ledger_outstanding(int kind);   /* handed out and not yet released */
 long mv_ledger_fresh(int kind);         /* distinct objects ever handed out */
+volatile long * mv_ledger_out_ptr(int kind);
+int mythv_desc_status(void * th);       /* 0 ready, 1 blocked, 3 finished and released by its worker */
+volatile int * mythv_desc_status_ptr(void * th);
 void mv_ledger_note(const char * what); /* for messages */
 #define MV_CHECK(c, ...) do { if (!(c)) mv_fail(__VA_ARGS__); } while (0)
 
